@@ -373,14 +373,19 @@ func (r *pathRun) exec(fn *ssa.Function, args []pval, free map[*ssa.FreeVar]func
 	}
 	var res []pval
 	if out != nil {
-		// recover paths of returned objects
-		for _, b := range fn.Blocks {
-			if ret, ok := b.Instrs[len(b.Instrs)-1].(*ssa.Return); ok && it.from != nil {
-				_ = ret
-			}
+		// a returned object keeps the access path it had inside (the executed return is the
+		// terminator of the last block on the trace)
+		var ret *ssa.Return
+		if len(it.trace) > 0 {
+			last := it.trace[len(it.trace)-1]
+			ret, _ = last.Instrs[len(last.Instrs)-1].(*ssa.Return)
 		}
-		for _, o := range out {
-			res = append(res, pval{o, ""})
+		for i, o := range out {
+			path := ""
+			if ret != nil && i < len(ret.Results) && o.K == 'o' {
+				path = paths[ret.Results[i]]
+			}
+			res = append(res, pval{o, path})
 		}
 	}
 	return res, it
